@@ -1053,6 +1053,9 @@ def rule_r14(ctx) -> List[R.Inst]:
     # every decorator that merges inherited props (it stores the merged dict with setattr(cl, prop_name, ..)) is served by one of the
     # walks found: in its own body, or in a module-level helper it calls
     helpers = {f.name for f, _ in walkers}
+    for outer in ast.walk(mod.tree):       # a walk in a closure of a helper serves whoever calls the helper
+        if isinstance(outer, ast.FunctionDef) and any(any(y is f for y in ast.walk(outer)) for f, _ in walkers):
+            helpers.add(outer.name)
     for dec in [f for f in ast.walk(mod.tree) if isinstance(f, ast.FunctionDef) and f.name == "gen_props"]:
         merges = any(isinstance(x, ast.Call) and call_name(x) == "setattr" and len(x.args) == 3 and unparse(x.args[1]) == "prop_name" for x in ast.walk(dec))
         mentions_bases = "__bases__" in unparse(dec) or any(isinstance(x, ast.Call) and isinstance(x.func, ast.Name) and x.func.id in helpers for x in ast.walk(dec))
